@@ -62,6 +62,13 @@ class LianRun:
                 out.setdefault(int(r["unit_id"]), []).append(r)
         return out
 
+    def taint_flows(self):
+        p = os.path.join(self.ws, "taint", "taint_data_flow.json")
+        if not os.path.exists(p):
+            return []
+        with open(p) as f:
+            return json.load(f)
+
     def table(self, pattern):
         dfs = self._feathers(pattern)
         rows = []
@@ -70,9 +77,15 @@ class LianRun:
         return rows
 
 
-def run_lian(files, cmd="lang", langs="python", extra=None, timeout=900, settings=None, keep_name="in"):
+def run_lian(files, cmd="lang", langs="python", extra=None, timeout=900, settings=None, keep_name="in", settings_files=None):
     """files: {relative path: text}.  Returns LianRun (caller cleans up)."""
     root = tempfile.mkdtemp(prefix=f"lian-verif-{os.getpid()}-")
+    if settings_files:
+        settings = os.path.join(root, "settings")
+        os.makedirs(settings)
+        for name, text in settings_files.items():
+            with open(os.path.join(settings, name), "w") as f:
+                f.write(text)
     src = os.path.join(root, keep_name)
     for rel, text in files.items():
         p = os.path.join(src, rel)
